@@ -432,12 +432,18 @@ def mapspec_dimensions(mapspecs: list[MapSpec]) -> dict[str, int]:
 def mapspec_axes(mapspecs: list[MapSpec]) -> dict[str, tuple[str, ...]]:
     """Return the axes for each array parameter in the pipeline."""
     axes: dict[str, dict[int, str]] = defaultdict(dict)
+    ranks: dict[str, int] = {}
     for mapspec in mapspecs:
         for arrayspec in itertools.chain(mapspec.inputs, mapspec.outputs):
+            ranks[arrayspec.name] = len(arrayspec.axes)
             for i, axis in enumerate(arrayspec.axes):
                 if axis is not None:
                     axes[arrayspec.name][i] = axis
-    return {name: tuple(dct[i] for i in range(len(dct))) for name, dct in axes.items()}
+    # A position that no MapSpec names (it only ever appears as ':') gets a placeholder name.
+    return {
+        name: tuple(axes[name].get(i, f"unnamed_{name}_{i}") for i in range(rank))
+        for name, rank in ranks.items()
+    }
 
 
 def _validate_shapes(
